@@ -215,6 +215,15 @@ class ExprBuilder:
             return getattr(x, e["op"])()
         if k == "cast":
             return self.build(e["e"], top=True).cast(PDT_TYPES[e["to"]]())
+        if k == "map":
+            x = self.build(e["e"], top=True)
+            mapping = {}
+            for ks, v in zip(e["ks"], e["vs"]):
+                key = tuple(lit_value(q) for q in ks) if len(ks) > 1 else lit_value(ks[0])
+                mapping[key] = self.build(v)
+            if e["d"]:
+                return x.map(mapping, default=self.build(e["d"][0], top=True))
+            return x.map(mapping)
         if k == "case":
             cs = e["cs"]
             if self.pool is not None and len(cs) >= 2:
@@ -386,5 +395,7 @@ def apply_move(m: dict, heap: list, colmap: dict, pool: dict | None = None):
         r = heap[m["j"] - 1]
         if r is None:
             raise MissingRef(("table", m["j"]))
+        if m.get("swap"):
+            return r >> union(t, distinct=m["distinct"])
         return t >> union(r, distinct=m["distinct"])
     raise ValueError(v)
